@@ -324,6 +324,12 @@ def oracle(req, impl):
             f"no value was returned: " + impl[:60])
 
 
+# K: the rule shared with C06 (tools/props/c06.py): ok / err / panic and the returned value are compared; the error
+# kind and the pass count are not (the statement says "an error value" and never speaks of the number of passes); a
+# run marked `~` by the harness (a stop test decided within rounding of the tolerance) is left to S.
+compare = c06.compare
+
+
 def nontrivial(req, model):
     return model.startswith("ok ")
 
